@@ -4,7 +4,8 @@ from session_common import *
 ID = 'C02'
 COQ_TARGETS = ['Props/Properties_C02.vo']
 PROPS_FILES = ['Props/Properties_C02.v']
-THEOREMS = ['C02_message', 'C02_message_checker_sound', 'C02_envelope', 'C02_trace_received', 'C02_trace_spf_none']
+THEOREMS = ['C02_message', 'C02_submission_additions', 'C02_submission_constants', 'C02_submission_full_refuted', 'C02_submission_partial',
+            'C02_message_checker_sound', 'C02_envelope', 'C02_trace_received', 'C02_trace_spf_none']
 ENGINES = [ENGINE]
 RULE = ('sessions with one to three accepted transactions whose data exercise the copy loops: bodies of arbitrary octets 1..255 except bare CR/LF, '
         'lines of 0, 1, 997..999 octets, lines that are dots only or start with one to three dots, empty header, empty body, no separator line, '
@@ -15,7 +16,7 @@ RULE = ('sessions with one to three accepted transactions whose data exercise th
 TRUSTED_BASE = TRUSTED_COMMON + ['coq/Model/Trace.v: hand transcription of write_received() and of the SPF_NONE branch of spfreceived(); used by the model side of the correspondence run, so every compared message checks it']
 ASSUMPTIONS = ASSUMPTIONS_COMMON + [
     'strings embedded in the trace header other than HELO argument and addresses (reverse DNS name, TCPREMOTEINFO, authenticated user name, certificate subject, cipher name) are assumed free of CR/LF; the user name of SMTP AUTH is client-chosen and only constrained by what checkpassword accepts',
-    'the Date/From/Message-Id additions of submission mode (port 587) are outside this model',
+    'submission mode: the date of the added Date: field is compared only as "the same 31 octets as the date of the Received: line" (both are masked by the harness), the Message-Id time stamp is the wrapped gettimeofday() of the harness, control/msgidhost is absent (default: control/me)',
     'Received-SPF for results other than "none" is property C11',
 ]
 LEVEL_TEXT = ('Coq theorems: (message) for every reader state and byte stream, what smtp_data wrote when it reached the final dot is the trace header '
@@ -63,8 +64,61 @@ def gen_cases(engine, rng, tier):
                 chunks.append(session_gen.rcpt(rng, rng.choice(['ok', 'ok', 'ok', 'no', 'remote', 'literal', 'syntax', 'mixed', 'mixed'])))
             chunks.append(b'DATA\r\n'); chunks.append(data_body(rng))
         out.append(session_gen.case(cfg, chunks))
+    # the submission port: every subset / order / case of Date, From, Message-Id, duplicates, near misses, dot lines, 8-bit, empty
+    # header, no body, size boundary, dying qmail-queue; a few with a field hidden behind a leading dot (known finding F-C02-2)
+    for i in range(n):
+        cfg, chunks = session_gen.subm_session(rng, hidden=(i % 25 == 7))
+        out.append(session_gen.case(cfg, chunks))
+    # the same payloads on port 25: nothing may be added there
+    for _ in range(n // 6):
+        cfg, chunks = session_gen.subm_session(rng)
+        out.append(session_gen.case(cfg.replace('port=587', 'port=' + rng.choice(['25', '25', '465', '5870', '58'])), chunks))
     return out + session_gen.gen(rng, 100 if tier == 'quick' else 2000)
 
 
 def nontrivial(case, c_out):
     return any(t.startswith('Q') for t in c_out.split())
+
+
+import re
+_HIDDEN = re.compile(rb'^\.(date|from|message-id):', re.I)
+
+
+def classify(case, c_out):
+    """F-C02-2 (Spec/SessionSpec.v:hidden_field): submission port, and the header block of a DATA payload has a line that, behind a
+    needless leading dot, begins with Date: / From: / Message-Id:"""
+    f = case.split()
+    if len(f) < 3 or b'port=587' not in R.unhx(f[1]).split(b';'):
+        return None
+    chunks = [R.unhx(x) for x in f[2:]]
+    for i in range(1, len(chunks)):
+        if chunks[i - 1].upper() == b'DATA\r\n':
+            for l in chunks[i].split(b'\r\n'):
+                if l in (b'', b'.'):
+                    break
+                if _HIDDEN.match(l):
+                    return 'subm-dot-hidden-field'
+    return None
+
+
+def distribution(results):
+    d = dict(handoffs=0, subm_handoffs=0, subm_added_date=0, subm_added_from=0, subm_added_msgid=0, subm_nothing_added=0, subm_mail_refused=0, r552=0, r550=0, simple_cases=0)
+    for r in results:
+        f = r['case'].split()
+        subm = len(f) > 1 and b'port=587' in R.unhx(f[1]).split(b';')
+        toks = r['c'].split()
+        for t in toks:
+            if t.startswith('Q'):
+                d['handoffs'] += 1
+                if subm:
+                    d['subm_handoffs'] += 1
+                    m = R.unhx(t.split('/')[1])
+                    a = (b'\nDate: ' + b'D' * 31 + b'\n' in m, b'\nMessage-Id: <1000000000.123456@mail.example.org>\n' in m)
+                    d['subm_added_date'] += a[0]; d['subm_added_msgid'] += a[1]
+                    fr = re.search(rb'\nFrom: <[^\n]*>\n', m) is not None
+                    d['subm_added_from'] += fr
+                    d['subm_nothing_added'] += not (a[0] or a[1] or fr)
+            elif t == 'r552': d['r552'] += 1
+            elif t == 'r550': d['r550'] += 1
+        if r['spec'] != 'pre': d['simple_cases'] += 1
+    return d
